@@ -798,6 +798,8 @@ class Lib:
                 s = s.parent
             (s or scope).set(node.id, new)
             al = scope.find_alias(node.id)
+            if al is not None and al.get('unknown'):
+                raise Undecided(f'in-place change of the container {node.id}, which may be reachable through another path ({al["unknown"]}): aliasing not tracked')
             if al is not None:
                 # the name itself denotes an inner container that was just mutated: write through to base[key]
                 if al['stale'] or al.get('detached'):
